@@ -383,6 +383,8 @@ def main():
     if not spec.get('noinit'):
         for k, v in enumerate(spec['init'], 1):
             if v:
+                if spec.get('history'):
+                    a[keyobj(keys, k)] = valobj(keys, v + 5)
                 a[keyobj(keys, k)] = valobj(keys, v)
     op = spec['op']
     if op['t'] == 'dump':
@@ -404,6 +406,8 @@ def main():
     try:
         sys.stdout.write(('RES ' if role == 'step' else '') + json.dumps(res) + '\n')
         sys.stdout.flush()
+        if role == 'step' and spec.get('linger'):
+            sys.stdin.readline()          # idle, handle open, until the controller ends the run
     finally:
         os._exit(0)
 
